@@ -24,9 +24,8 @@
  *  B <id>            -> <id> OK sequenceBound samples (T-tie of ZSTD_sequenceBound) : n=bound,...
  */
 #define ZSTD_STATIC_LINKING_ONLY
-#include "zstd.h"
+#include "compress/zstd_compress.c"   /* only to read applied parameters / dictSize and for the unit-level U commands */
 #include "zstd_errors.h"
-#include "compress/zstd_compress_internal.h"
 #include <stdio.h>
 #include <stdlib.h>
 #include <string.h>
